@@ -44,16 +44,18 @@ GROUPS.append(Group(name="C01/riscv.branch_jal_immediates", unity="C01/u_riscv_i
                     checks=CH, timeout=600))
 _RVF = [(1, "lb", 0), (1, "lh", 1), (1, "lw", 2), (1, "lbu", 4), (1, "lhu", 5), (2, "sb", 0), (2, "sh", 1), (2, "sw", 2),
         (3, "addi", 0), (3, "slti", 2), (3, "sltiu", 3), (3, "xori", 4), (3, "ori", 6), (3, "andi", 7),
-        (4, "beq", 0), (4, "bne", 1), (4, "blt", 4), (4, "bge", 5), (4, "bltu", 6), (4, "bgeu", 7), (5, "jal", 0)]
+        (4, "beq", 0), (4, "bne", 1), (4, "blt", 4), (4, "bge", 5), (4, "bltu", 6), (4, "bgeu", 7), (5, "jal", 0),
+        (6, "add", 0, 0), (6, "sub", 0, 0x20), (6, "sll", 1, 0), (6, "slt", 2, 0), (6, "sltu", 3, 0), (6, "xor", 4, 0), (6, "srl", 5, 0), (6, "sra", 5, 0x20), (6, "or", 6, 0), (6, "and", 7, 0),
+        (7, "slli", 1, 0), (7, "srli", 5, 0), (7, "srai", 5, 0x20)]
 def rv_groups():
     return [Group(name="C01/riscv.%s" % m, unity="C01/u_riscv_forms.cpp", entry="h_riscv_form",
                   functions=[("parse_instruction_riscv", "asm/riscv.cpp", "harness (token-script contract), form %d" % f), ("get_operands", "asm/riscv.cpp", "real callee"), ("table_riscv[]", "table/riscv.cpp", "data; scan closed by unwinding 320")],
-                  defines=["FORM=%d" % f, "MNEM=%s" % m, "F3=%d" % f3], unwind=320, checks=CH, timeout=900, tier="quick") for f, m, f3 in _RVF]
+                  defines=["FORM=%d" % r[0], "MNEM=%s" % r[1], "F3=%d" % r[2]] + (["F7=%d" % r[3]] if len(r) > 3 else []), unwind=320, checks=CH, timeout=900, tier="quick") for r in _RVF for f, m in [(r[0], r[1])]]
 GROUPS += rv_groups()
 # known finding, confined to its input class: I-type ALU immediates 2048..4095 are accepted and encoded as N - 4096
 GROUPS += [Group(name="C01/riscv.%s.uimm12" % m, unity="C01/u_riscv_forms.cpp", entry="h_riscv_form",
                  functions=[("parse_instruction_riscv", "asm/riscv.cpp", "harness (token-script contract), form 3, immediates 2048..4095 only")],
-                 defines=["FORM=3", "MNEM=%s" % m, "F3=%d" % f3, "UIMM12_ONLY"], unwind=320, checks=CH, timeout=900, tier="quick") for f, m, f3 in _RVF if f == 3]
+                 defines=["FORM=3", "MNEM=%s" % m, "F3=%d" % f3, "UIMM12_ONLY"], unwind=320, checks=CH, timeout=900, tier="quick") for f, m, f3 in [x for x in _RVF if len(x) == 3] if f == 3]
 LEVEL = "proof"
 TRUSTED = ["the expected words in contracts/C01/u_riscv_forms.cpp are a hand transcription of the RV32I base instruction formats and the instruction listing of the RISC-V manual", "spec_enc_b/spec_dec_b/spec_enc_j/spec_dec_j in contracts/C01/u_riscv_imm.cpp are a hand transcription of the B-type and J-type immediate layouts of the RISC-V manual",
            "spec_two()/spec_src() in contracts/C01/u_asm430.cpp are a hand transcription of SLAU144 sections 3.3-3.4",
@@ -61,6 +63,6 @@ TRUSTED = ["the expected words in contracts/C01/u_riscv_forms.cpp are a hand tra
            "Memory replaced by a write log plus the pass-1 flag byte"]
 MANIFEST = {
     "text": "Per instruction form (mnemonic x source mode x destination mode x size suffix) the real MSP430 encoder is compared with the manual's encoding for all register numbers, all 32-bit operand values and all even load addresses; the disassembler length contract (C08) composes to 'decodes exactly the emitted bytes'.",
-    "note": "Claimed for the MSP430 core double-operand instructions; for RV32I the loads, stores, I-type ALU instructions, branches and jal (21 forms: all registers, all 32-bit operand values, all word-aligned addresses) and the B-type/J-type immediate encoder/decoder pair are under contract; the text round trip, MSP430X and the other CPUs are not decided (DESIGN 4, C01 gap).",
+    "note": "Claimed for the MSP430 core double-operand instructions; for RV32I the loads, stores, I-type ALU instructions, branches and jal (34 forms: all registers, all 32-bit operand values, all word-aligned addresses) and the B-type/J-type immediate encoder/decoder pair are under contract; the text round trip, MSP430X and the other CPUs are not decided (DESIGN 4, C01 gap).",
     "technique": "CBMC contract harness (token-script contract, spec function from SLAU144) on asm/msp430.cpp + core/add_bin.cpp + the real cpu_list row",
 }
